@@ -172,6 +172,8 @@ def check_container(E, st, exp, label, full=True):
         if k in exp:
             want[k] = exp[k]
     stride = spec.pad_to(4 * ntr_grid, 512)
+    if 'inherit_version' in exp:
+        stride = spec.footer_stride(exp['inherit_version'], 4 * ntr_grid)
     total = 8192 + data_bytes + stride * len(exp['stored'])
     if not full:
         return dict(data_bytes=data_bytes, stride=stride, total=total, pad=pad)
@@ -186,11 +188,13 @@ def check_container(E, st, exp, label, full=True):
             continue
         E.check(got == want[name], label + ': header field %s states the true value' % name)
     ver = read_field(st, 72, '<I')
-    E.check(ver > spec.V_0_2_1, label + ': recorded version selects the conventions the writer used (padded footer, trace-count field, microsecond interval)')
+    if 'inherit_version' in exp:
+        # a file derived from another file keeps that file's format version and therefore its footer convention
+        E.check(ver == exp['inherit_version'], label + ': format version is that of the source file')
+    else:
+        E.check(ver > spec.V_0_2_1, label + ': recorded version selects the conventions the writer used (padded footer, trace-count field, microsecond interval)')
     if 'version_enc' in exp:
         E.check(ver == exp['version_enc'], label + ": recorded version is the writing library's version")
-    stride = spec.pad_to(4 * ntr_grid, 512)
-    total = 8192 + data_bytes + stride * len(exp['stored'])
     E.check(data_bytes == blocks * 4096, label + ': data section is a whole number of 4 KiB blocks = padded voxels x bits / 8')
     E.check(c.length == total, label + ': file length = header + data blocks + padded footer arrays')
     # the header-word table names exactly the stored arrays
